@@ -64,16 +64,19 @@ func writeTTFHeader(nTables int, out []byte) {
 }
 
 func checksum(table []byte) uint32 {
+	var sum uint32
+	nbWords := len(table) / 4
+	for i := 0; i < nbWords; i++ {
+		sum += binary.BigEndian.Uint32(table[i*4:])
+	}
+
 	// "To accommodate data with a length that is not a multiple of four,
 	// the above algorithm must be modified to treat the data as though
 	// it contains zero padding to a length that is a multiple of four."
 	if r := len(table) % 4; r != 0 {
-		table = append(table, make([]byte, r)...)
-	}
-
-	var sum uint32
-	for i := 0; i < len(table)/4; i++ {
-		sum += binary.BigEndian.Uint32(table[i*4:])
+		var last [4]byte // do not write into the caller's slice
+		copy(last[:], table[nbWords*4:])
+		sum += binary.BigEndian.Uint32(last[:])
 	}
 
 	return sum
